@@ -1250,7 +1250,9 @@ class Interp:
                     raise Unsupported("__getattr__ fallback on %s for %s" % (cls.__name__, name))
             if o._opaque:
                 return Opaque(o, name)
-            raise AttributeError("%s has no attribute %r" % (o._name, name))
+            if name in getattr(o, "__dict__", {}).get("_deleted", ()):
+                raise AttributeError("%s has no attribute %r" % (o._name, name))
+            raise core.UnmodelledAttribute("%s has no attribute %r" % (o._name, name))
         if isinstance(o, SSeq):
             return SeqMethod(o, name)
         if isinstance(o, (bytes, str, bytearray)):
